@@ -142,7 +142,7 @@ def element_options(interp, it, node):
         out = []
         for s in it.content.sites:
             s2 = s.rename(ctx)
-            out.append((s2.bvars, s2.cond, s2.elem, None))
+            out.append((s2.all_vars(), s2.full_cond(), s2.elem, None))
         return out
     if isinstance(it, VSet) and it.pred is not None:
         ek = getattr(it, "elem_kind", None)
@@ -300,7 +300,7 @@ def value_class(v):
     if isinstance(v, VObj):
         return v.tag
     if isinstance(v, VList):
-        return {"list": "list", "ndarray": "ndarray", "generator": "generator", "Series": "Series", "tuple": "tuple"}[v.kind]
+        return {"list": "list", "ndarray": "ndarray", "generator": "generator", "Series": "Series", "tuple": "tuple"}.get(v.kind, v.kind)
     return {VStr: "str", VDict: "dict", VSet: "set", VTuple: "tuple", VInt: "int", VReal: "float",
             VNone: "NoneType", VBool: "bool", VRange: "range", VNan: "float", VInf: "float"}.get(type(v), type(v).__name__)
 
@@ -413,6 +413,11 @@ def elementwise_compare(interp, opn, a, b, node):
 
 def contains(interp, container, item, node):
     return _run("contains", interp, container, item, node)
+
+
+def hashcheck(interp, item, node):
+    from . import ext_anyobj
+    return ext_anyobj.hashcheck(interp, item, node)
 
 
 def inplace_op(interp, opn, cur, rhs, node):
@@ -728,10 +733,13 @@ def _quant_truth(interp, v, node, is_all):
     for s in bag.sites:
         t = interp.as_bool_term(s.elem, node)
         if is_all:
-            body = z3.Implies(s.cond, t)
-            parts.append(z3.ForAll(s.bvars, body) if s.bvars else body)
+            body = z3.Implies(s.full_cond(), t)
+            parts.append(z3.ForAll(s.all_vars(), body) if s.all_vars() else body)
         else:
-            body = z3.And(s.cond, t)
+            if s.hvars:
+                body = z3.And(s.cond, z3.ForAll(s.hvars, z3.Implies(s.cond_h, t)))
+            else:
+                body = z3.And(s.cond, t)
             parts.append(z3.Exists(s.bvars, body) if s.bvars else body)
     if not parts:
         return z3.BoolVal(is_all)
@@ -1021,3 +1029,16 @@ def _iter_method(interp, sv, args, kwargs, node):
 
 for _c in ("list", "tuple", "str", "set", "dict", "ndarray", "Series", "generator", "range"):
     METHODS[(_c, "__iter__")] = _iter_method
+
+
+@extern("itertools.combinations")
+def _combinations(interp, args, kwargs, node):
+    return VCombos(args[0], args[1])
+
+
+@extern("itertools.chain")
+def _chain(interp, args, kwargs, node):
+    acc = interp.born(VList(ConcreteSeq([]), "generator"))
+    for a in args:
+        interp.mutate_extend(acc, a, node)
+    return acc
